@@ -43,7 +43,10 @@ Bound(be, f) ==
     [] OTHER -> [ulp |-> -1, abs |-> 0, rel |-> 0]
 
 Agree(b, e) ==
-  IF IsNaN(e.ystd) \/ IsNaN(e.y) THEN IsNaN(e.ystd) = IsNaN(e.y) \/ b.ulp = -1
+  \* outside the function's domain (std answers NaN) an approximation may answer anything;
+  \* inside it, it must answer a number
+  IF IsNaN(e.ystd) THEN IsNaN(e.y) \/ b.ulp = -1
+  ELSE IF IsNaN(e.y) THEN FALSE
   ELSE IF b.ulp >= 0 THEN AbsI(e.ky - e.kstd) <= b.ulp
   ELSE AbsI(e.sy - e.sstd) <= b.abs + (IF b.rel = 0 THEN 0 ELSE AbsI(e.sstd) \div b.rel)
 
